@@ -67,6 +67,10 @@ void harness(void) {
 	__CPROVER_assume(sv_reparse_safe(&v0) && all_pct_legal(&v0));
 	/* scheme and port have no percent-encodings; port is digits (irrelevant here) */
 	__CPROVER_assume(no_pct(&v0.scheme) && no_pct(&v0.port));
+#ifdef V_POOL_PCT        /* slice: the text consists of '%' and hexadecimal digits only (two adjacent percent-encodings fit into six characters) */
+	{ int i_; for (i_ = 0; i_ < VT; i_++) __CPROVER_assume(a_pool[i_] == _UT('%') || (a_pool[i_] >= _UT('0') && a_pool[i_] <= _UT('9'))
+		|| (a_pool[i_] >= _UT('a') && a_pool[i_] <= _UT('f')) || (a_pool[i_] >= _UT('A') && a_pool[i_] <= _UT('F'))); }
+#endif
 #ifdef V_COMPS           /* components outside V_COMPS are absent (bit 0 scheme, 1 user info, 2 host, 3 path, 4 query, 5 fragment, 6 port) */
 	__CPROVER_assume(((V_COMPS) & 1) || a.scheme.len < 0);
 	__CPROVER_assume(((V_COMPS) & 2) || a.userInfo.len < 0);
